@@ -69,12 +69,43 @@ class Tables:
         self.model, self.f = model, f
 
     def _nt_row(self, v: ast.AST) -> ast.AST:
-        """`Row(ECALL, 0)` for a typing.NamedTuple class Row (positional constants only) is the tuple `(ECALL, 0)`"""
+        """`Row(ECALL, 0)` for a typing.NamedTuple class Row (positional constants only) is the tuple `(ECALL, 0)`; components that are
+        arithmetic over named constants (`WORD_BYTES // 2`) are folded to their value."""
         if isinstance(v, ast.Call) and isinstance(v.func, ast.Name) and not v.keywords and not any(isinstance(a, ast.Starred) for a in v.args):
             c_ = self.model.resolve_name(self.f.module, v.func.id)
             spec = _namedtuple_fields(self.model)[0].get(getattr(c_, "qname", None)) if c_ is not None else None
             if spec is not None and len(v.args) == len(spec[0]):
-                return ast.copy_location(ast.Tuple(elts=list(v.args), ctx=ast.Load()), v)
+                v = ast.copy_location(ast.Tuple(elts=list(v.args), ctx=ast.Load()), v)
+                v._nt_fields = list(spec[0])  # type: ignore[attr-defined]
+        def _is_named_scalar(x: ast.AST) -> bool:
+            if isinstance(x, ast.Name):
+                r_ = self.model.resolve_name(self.f.module, x.id)
+                return isinstance(r_, tuple) and r_[0] == "assign" and _module_scalar(self.model, r_[1], r_[2]) is not None
+            return False
+        if isinstance(v, ast.Tuple) and (not all(_row_ok(x) for x in v.elts) or any(_is_named_scalar(x) for x in v.elts)):
+            from .consteval import Folder
+            elts = []
+            for x in v.elts:
+                if not _row_ok(x) or _is_named_scalar(x):
+                    try:
+                        val = Folder(self.model, self.f.module, None, None).fold(x)
+                    except Exception:
+                        val = None
+                    if type(val) in (int, bool, str):
+                        x = ast.copy_location(ast.Constant(value=val), x)
+                elts.append(x)
+            v2 = ast.copy_location(ast.Tuple(elts=elts, ctx=ast.Load()), v)
+            if hasattr(v, "_nt_fields"):
+                v2._nt_fields = v._nt_fields  # type: ignore[attr-defined]
+            v = v2
+        elif not _row_ok(v) and isinstance(v, (ast.BinOp, ast.UnaryOp)):
+            from .consteval import Folder
+            try:
+                val = Folder(self.model, self.f.module, None, None).fold(v)
+            except Exception:
+                val = None
+            if type(val) in (int, bool, str):
+                v = ast.copy_location(ast.Constant(value=val), v)
         return v
 
     def rows(self, e: ast.AST, allow_dynamic_values: bool = False) -> Optional[list]:
@@ -760,6 +791,51 @@ class _Stmt:
                     and not any(isinstance(x, ast.Call) for x in ast.walk(s.targets[0])):
                 s = ast.copy_location(ast.AugAssign(target=s.targets[0], op=s.value.op, value=s.value.right), s)
                 self.changed = True
+            # rec = TABLE[k]; REST reading only rec.<field> / rec[i]   ->   f0, f1, .. = TABLE[k]; REST[rec.<field> := f_i]
+            if isinstance(s, ast.Assign) and len(s.targets) == 1 and isinstance(s.targets[0], ast.Name) and isinstance(s.value, ast.Subscript) \
+                    and not isinstance(s.value.slice, ast.Slice) and _simple_key(s.value.slice) and stmts[i + 1:]:
+                rn = s.targets[0].id
+                rows_ = self.t.rows(s.value.value)
+                if isinstance(rows_, list) and rows_ and all(isinstance(v_, ast.Tuple) for _k, v_ in rows_) and len({len(v_.elts) for _k, v_ in rows_}) == 1:
+                    arity = len(rows_[0][1].elts)
+                    fields_ = getattr(rows_[0][1], "_nt_fields", None)
+                    rest_ = stmts[i + 1:]
+                    pmap_: dict = {}
+                    for st_ in rest_:
+                        for p_ in ast.walk(st_):
+                            for ch_ in ast.iter_child_nodes(p_):
+                                pmap_[id(ch_)] = p_
+                    ok_ = sum(1 for n_ in ast.walk(self.t.f.node) if isinstance(n_, ast.Name) and n_.id == rn and isinstance(n_.ctx, ast.Store)) == 1
+                    n_uses = 0
+                    for st_ in rest_:
+                        for n_ in ast.walk(st_):
+                            if isinstance(n_, ast.Name) and n_.id == rn:
+                                n_uses += 1
+                                par_ = pmap_.get(id(n_))
+                                if isinstance(par_, ast.Attribute) and par_.value is n_ and fields_ and par_.attr in fields_ and isinstance(par_.ctx, ast.Load):
+                                    continue
+                                if isinstance(par_, ast.Subscript) and par_.value is n_ and isinstance(par_.slice, ast.Constant) and isinstance(par_.slice.value, int) \
+                                        and 0 <= par_.slice.value < arity and isinstance(par_.ctx, ast.Load):
+                                    continue
+                                ok_ = False
+                    if ok_ and n_uses:
+                        names_ = [f"_{rn}_{(fields_[j] if fields_ else j)}" for j in range(arity)]
+
+                        class _RF(ast.NodeTransformer):
+                            def visit_Attribute(self, n_):
+                                if isinstance(n_.value, ast.Name) and n_.value.id == rn and fields_ and n_.attr in fields_:
+                                    return ast.copy_location(ast.Name(id=names_[fields_.index(n_.attr)], ctx=ast.Load()), n_)
+                                return self.generic_visit(n_)
+
+                            def visit_Subscript(self, n_):
+                                if isinstance(n_.value, ast.Name) and n_.value.id == rn and isinstance(n_.slice, ast.Constant):
+                                    return ast.copy_location(ast.Name(id=names_[n_.slice.value], ctx=ast.Load()), n_)
+                                return self.generic_visit(n_)
+                        new_s = ast.copy_location(ast.Assign(targets=[ast.Tuple(elts=[ast.Name(id=x_, ctx=ast.Store()) for x_ in names_], ctx=ast.Store())],
+                                                             value=s.value, lineno=s.lineno), s)
+                        stmts = stmts[:i] + [new_s] + [_RF().visit(copy.deepcopy(st_)) for st_ in rest_]
+                        self.changed = True
+                        continue
             # a, b = TABLE[k]; REST   /   a, b = TABLE.get(k, DEFAULT); REST   ->  if/elif chain
             look = None
             if isinstance(s, ast.Assign) and len(s.targets) == 1 and isinstance(s.value, ast.Subscript) \
